@@ -338,6 +338,10 @@ def c03_retry(case, prev, pattern, n, tier, only=None):
         return info, []         # the plain write fails: C01's business
     fl, info['exempt'], info['thinned'] = faults(link0, tier)
     out = []
+    sim = case.new_sim()
+    if old:
+        case.preload(sim, old)
+    before = sim.image()            # tag memory before attempt 1
     for fault in fl:
         if only is not None and tuple(only) != fault:
             continue
@@ -347,10 +351,6 @@ def c03_retry(case, prev, pattern, n, tier, only=None):
             pattern=pattern, n=n, fault=list(fault), command=name,
             commands_of_write=len(link0.names)))
         f.label = 'retry-write:%s:%s' % (name, fault[2])
-        sim = case.new_sim()
-        if old:
-            case.preload(sim, old)
-        before = sim.image()
         sim, exc1, exc2, link, (mark_w, mark_d) = history(case, old, msg,
                                                           fault)
         after = sim.image()
